@@ -214,6 +214,25 @@ func runC02(c C02Case) *Result {
 				}
 				res.count("partial_requests", 1)
 			}
+			if len(preq) < len(req) {
+				// the request as it stands names leaves the partial forest does not remember: it is refused, or
+				// answered with the canonical proof - never "success" with something else
+				var gp u.Proof
+				var gerr error
+				panicked := false
+				func() {
+					defer func() {
+						if recover() != nil {
+							panicked = true
+						}
+					}()
+					gp, gerr = mpart.M.Prove(cloneHashes(hs))
+				}()
+				if !panicked && gerr == nil && !eqProof(gp, want) {
+					return res.failf("after block %d: partial %s Prove(slots %v), of which only %v are remembered, reports success with %s; canonical %s", i, mpart.Cfg, req, preq, proofStr(gp), proofStr(want))
+				}
+				res.count("partial_requests_naming_unremembered_leaves", 1)
+			}
 			// every verifier accepts the canonical proof
 			st := u.Stump{Roots: cloneHashes(stump.S.Roots), NumLeaves: stump.S.NumLeaves}
 			idx, err := u.Verify(st, cloneHashes(hs), cloneProof(want))
